@@ -135,8 +135,16 @@ impl<T: AsRef<[u8]>> Packet<T> {
         // > An all zero transmitted checksum value means that the transmitter
         // > generated no checksum (for debugging or for higher level protocols
         // > that don't care).
+        //
+        // This only exists for UDP over IPv4; over IPv6 the checksum is mandatory
+        // (RFC 8200 section 8.1) and a zero checksum must be discarded.
         if self.checksum() == 0 {
-            return true;
+            return match (src_addr, dst_addr) {
+                #[cfg(feature = "proto-ipv4")]
+                (IpAddress::Ipv4(_), IpAddress::Ipv4(_)) => true,
+                #[allow(unreachable_patterns)]
+                _ => false,
+            };
         }
 
         let data = self.buffer.as_ref();
